@@ -242,6 +242,19 @@ def run_real(case):
             for f in facts:
                 if f['tag'] in derived and f['seq'] != i:
                     orphans.append([f['tag'], f['src'], f['seq']])
+        # path arguments are PATHS, not patterns: a look-alike name with glob metacharacters that
+        # was never searched has no results, whatever the view
+        globby = []
+        for pat in ('*', 'f?.txt', 'f[0-9].txt', '*.txt', 'f[!x].txt'):
+            gp = os.path.join(tmpdir, pat)
+            n = len(coll.find_by_path(gp))
+            for t in {f['tag'] for f in facts if f['tag'] is not None}:
+                n += len(coll.find_by_tag(t, path=gp))
+            for i, d in enumerate(scn['defs']):
+                if d['type'] == 'seq' and any(r[0] == i for r in scn['regs']):
+                    n += len(coll.find_sequence_sections(built.defs[i], path=gp))
+            if n:
+                globby.append([pat, n])
         regd = sorted({r[0] for r in scn['regs']})
         reg_tags = sorted({scn['defs'][i]['tag'] for i in regd
                            if scn['defs'][i].get('tag') is not None})
@@ -263,7 +276,8 @@ def run_real(case):
                 order.append(r[0])
         tagids = {t: [i for i in order if scn['defs'][i].get('tag') == t] for t in reg_tags}
         return {'obs': obs, 'batches': batches, 'npaths': len(paths), 'tags': tags,
-                'reg_tags': reg_tags, 'seqidx': seqidx, 'tagids': tagids, 'orphans': orphans}
+                'reg_tags': reg_tags, 'seqidx': seqidx, 'tagids': tagids, 'orphans': orphans,
+                'globby': globby}
     finally:
         shutil.rmtree(tmpdir, ignore_errors=True)
 
@@ -346,6 +360,10 @@ def canon_sections(ans):
 def spec_check(impl):
     """ the property stated on the per-path lists the collection itself returns """
     obs = impl['obs']
+    if impl.get('globby'):
+        pat, n = impl['globby'][0]
+        return (f"lookups for the path named {pat!r} (never searched; it merely LOOKS like a "
+                f"pattern matching searched files) returned {n} results / sections")
     if impl.get('orphans'):
         t, src, seq = impl['orphans'][0]
         return (f"a result tagged {t!r} (path {src}) reports sequence {seq}: it belongs to no "
